@@ -86,8 +86,6 @@ Section Expect.
   Qed.
 End Expect.
 
-Definition no_nil_deref (st : rinfo) (o : rop) : Prop := True.
-
 Theorem monitor_silent_on_model ops : forall l st, Rel l st -> Forall wf_op ops -> Forall plain_op ops ->
   ri_monitor_from l ops (ri_run st ops) = None.
 Proof.
